@@ -63,7 +63,15 @@ def _values_for(key):
 def spaces(draw, modes=("product", "sequential", "custom"), max_params=4, allow_k1=False, max_runs=24, with_names=False, with_nested=False):
     mode = draw(st.sampled_from(list(modes)))
     dask = draw(st.booleans())
-    pool = KEYS + [NAME_KEY] if with_names and mode != "custom" else list(KEYS)  # (a custom table holds numbers only)
+    if mode == "custom" and with_names and draw(st.sampled_from([False, False, True])):
+        # a custom table of text cells only: one text-valued parameter (optionally next to a disabled numeric one), one row per run
+        names = draw(st.lists(st.sampled_from(NAMES), min_size=1, max_size=4, unique=True))
+        params = [{"key": NAME_KEY, "values": list(names), "enabled": True, "render": "list"}]
+        if draw(st.booleans()):
+            params.insert(draw(st.integers(0, 1)), {"key": KEYS[0], "values": [3, 4], "enabled": False, "render": "list"})
+        return {"mode": mode, "dask": dask, "params": params,
+                "custom": {"rows": [[n] for n in names], "pre": 0, "post": 0, "use_range": False, "fmt": draw(st.sampled_from(["txt", "csv"])), "text": True}}
+    pool = KEYS + [NAME_KEY] if with_names and mode != "custom" else list(KEYS)  # (the general custom tables hold numbers)
     if with_nested:
         pool = pool + [NESTED_KEY]
     keys = draw(st.lists(st.sampled_from(pool), min_size=1, max_size=max_params, unique=True))
@@ -127,8 +135,13 @@ def observation_mode_spec(case, tmpdir):
     m = {"kind": "observation", "mode": case["mode"], "with_dask": case["dask"], "parameters": params}
     if case["mode"] == "custom":
         c = case["custom"]
-        table = np.array([[91.0 + i] * c["pre"] + r + [77.0] * c["post"] for i, r in enumerate(c["rows"])], dtype=float)
         path = f"{tmpdir}/custom.{c['fmt']}"
+        if c.get("text"):
+            with open(path, "w") as fh:
+                fh.writelines(("," if c["fmt"] == "csv" else " ").join(str(x) for x in r) + "\n" for r in c["rows"])
+            m["from_file"] = path
+            return m
+        table = np.array([[91.0 + i] * c["pre"] + r + [77.0] * c["post"] for i, r in enumerate(c["rows"])], dtype=float)
         if c["fmt"] == "npy":
             np.save(path, table)
         else:
